@@ -5,17 +5,30 @@ NONXML = lambda c: (ord(c) < 32 and c not in '\t\n\r') or c in '￾￿'
 SVGNS = 'http://www.w3.org/2000/svg'
 CLASSES = [' ', 'a', 'é', '一', '<', '>', '&', '"', "'", '\x01', '\x0b', '\x1f', '\x7f', '\x85', '￾', '￿', '\U0001F600', '́', ']', '\t', '\\']
 
+def boxed(content, corners='++++'):
+    """a closed box exactly wide enough for one row of content (columns counted as the grid does)"""
+    w = row_cols(content) + 2
+    return '\n'.join([corners[0] + '-' * w + corners[1], '| ' + content + ' |', corners[2] + '-' * w + corners[3]])
+
 def channels(rng, payload):
     """the payload in each input channel"""
     q = payload.replace('"', '').replace('\\', '')
     b = payload.replace('{', '').replace('}', '')
+    one = payload.replace('\n', ' ')
+    qt = q.replace('{', '').replace('}', '').replace('\n', ' ')
     return [
         ('plain', 'x ' + payload + ' y'),
-        ('plain-in-box', '+------------+\n| ' + payload.replace('\n', ' ') + '\n+------------+'),
+        ('plain-in-box', boxed(one)),
         ('quoted', 'a "' + q.replace('\n', ' ') + '" b'),
+        ('quoted-in-box', boxed('"' + q.replace('\n', ' ') + '"', "..''")),
         ('legend-decl', '+--+\n|{a}\n+--+\n# Legend:\na = {' + b + '}'),
-        ('legend-name', '{a}\n# Legend:\n' + payload.replace('\n', ' ') + ' = {fill:red}'),
-        ('tag', '+--------------+\n| {' + payload.replace('\n', ' ') + '} |\n+--------------+'),
+        ('legend-name', '{a}\n# Legend:\n' + one + ' = {fill:red}'),
+        ('tag', boxed('{' + one + '}')),
+        # a list of tag names in which only some are names, bare and inside a quoted string, within a closed shape
+        ('tag-list', boxed('{ok_1,' + b.replace('\n', ' ') + '}')),
+        ('tag-list-quoted', boxed('"{' + qt + ',ok_2}"')),
+        ('tag-list-quoted2', boxed('"{ok_3,' + qt + '}"', "..''")),
+        ('tag-quoted', boxed('"{' + qt + '}"')),
     ]
 
 class C02(Prop):
